@@ -23,7 +23,11 @@ func (s *ModelServer) CreateMode(_ context.Context, request *CreateModeRequest) 
 		return nil, status.Errorf(codes.InvalidArgument, "id '%v' should be empty", request.GetMode().GetId())
 	}
 
-	return s.model.CreateMode(request.Mode)
+	mode := request.GetMode()
+	if mode == nil {
+		mode = &traits.ElectricMode{} // a request may leave the mode out altogether: create an empty one
+	}
+	return s.model.CreateMode(mode)
 }
 
 func (s *ModelServer) UpdateMode(_ context.Context, request *UpdateModeRequest) (*traits.ElectricMode, error) {
